@@ -320,6 +320,54 @@ func interactiveCase(raw json.RawMessage, c *scase) {
 	}
 }
 
+// realWriterPart: the same law (a command's output is what a fresh session with the same options produces) for
+// the driver's OWN writer and real files: a file named by several commands of a session holds the last report only
+func realWriterPart() {
+	dir, err := os.MkdirTemp("", "c10-out-")
+	if err != nil {
+		run.Infra(err.Error())
+		return
+	}
+	defer os.RemoveAll(dir)
+	f, g := filepath.Join(dir, "f.txt"), filepath.Join(dir, "g.txt")
+	histories := [][]string{
+		{"tree >" + f, "top 1 >" + f},
+		{"top >" + f, "focus=h", "top 1 >" + f},
+		{"output=" + f, "traces", "top 1"},
+		{"raw >" + f, "tags >" + f, "top 1 >" + f},
+	}
+	for _, h := range histories {
+		os.Remove(f)
+		os.Remove(g)
+		r := vdrv.Run(vdrv.Opts{Args: []string{"-functions", "-flat", "src"}, Lines: h, RealWriter: true,
+			Fetch: func(string) (*profile.Profile, error) { return prof.Copy(), nil }})
+		// reference: a fresh session with the assignments of the history, then its last command alone
+		var ref []string
+		for _, l := range h[:len(h)-1] {
+			if strings.Contains(l, "=") && !strings.Contains(l, ">") {
+				ref = append(ref, strings.Replace(l, f, g, 1))
+			}
+		}
+		ref = append(ref, strings.Replace(h[len(h)-1], f, g, 1))
+		r2 := vdrv.Run(vdrv.Opts{Args: []string{"-functions", "-flat", "src"}, Lines: ref, RealWriter: true,
+			Fetch: func(string) (*profile.Profile, error) { return prof.Copy(), nil }})
+		run.Count("realwriter|" + strings.Join(h, ";"))
+		if r.Err != nil || r.Panic != nil || r2.Err != nil || r2.Panic != nil {
+			run.Violate("interactive", "realwriter-error", fmt.Sprint(r.Err, r.Panic, r2.Err, r2.Panic), h, nil)
+			continue
+		}
+		got, e1 := os.ReadFile(f)
+		want, e2 := os.ReadFile(g)
+		if e1 != nil || e2 != nil {
+			run.Violate("interactive", "realwriter-nofile", fmt.Sprint(e1, e2), h, nil)
+			continue
+		}
+		if !bytes.Equal(got, want) {
+			run.Violate("interactive", "leak:file:"+h[len(h)-1][:3], fmt.Sprintf("after %q the file holds something else than after %q in a fresh session:\n--- in session\n%s\n--- fresh\n%s", h, ref, clip(got), clip(want)), h, nil)
+		}
+	}
+}
+
 func lastLine(c *scase) string {
 	for i := len(c.Lines) - 1; i >= 0; i-- {
 		if c.Lines[i].Kind == "bad" || c.Lines[i].Kind == "noop" {
@@ -563,6 +611,7 @@ func main() {
 	if root := os.Getenv("C10_SRCROOT"); root != "" {
 		os.RemoveAll(root)
 	}
+	realWriterPart()
 	webPart(run.N)
 	settingsUsable()
 	keys := make([]string, 0)
